@@ -217,6 +217,7 @@ def takeSnapshot (c : Cfg) (s : State) : Option State :=
   | (some e, rest) =>
     if e.1 + 1 = s.rcvdIdx then
       some { s with mainSnaps := rest, snap := ⟨s.numYielded + 1, s.lastW, e.2, s.wsnaps⟩ }
+    else if !c.inOrder then some { s with mainSnaps := rest }   -- in_order=False: skip (repo fix e083a8d)
     else none
 
 def applyDelta (ws : List WSt) (w : Nat) : Option WSt → List WSt
